@@ -157,6 +157,19 @@ def build_project(strings, root, dumpdir):
             kw = {'plain': '', 'capture': ', capture: true', 'feed': ", feed: true, input: 'in.txt'"}[mode]
             L.append("custom_target('%s', output: '%s.out', command: [dump, %s%s, 'zz', %s, 'yy']%s)" % (name, name, first, lit(o), lit(o), kw))
             plan.append(('ct', name, [o, 'zz', o, 'yy'], dp(name) if mode != 'capture' else None, {'mode': mode, 'nenv': 0}))
+    # two wrapped commands of the same program whose argument lists differ only in where the boundaries fall (whatever names
+    # the serialised command must tell them apart); they share the dump file, each edge is run and read on its own
+    pp = dp('ct_pair')
+    for tag, lst in (('a', ['p q', 'r\ns', 't']), ('b', ['p', 'q r\ns', 't']), ('c', ['p q r\ns', 't']), ('d', ['p', 'q', 'r\ns t'])):
+        name = 'ct_pair_' + tag
+        L.append("custom_target('%s', output: '%s.out', command: [dump, '--dump=%s', %s])" % (name, name, pp, ', '.join(lit(x) for x in lst)))
+        plan.append(('ct', name, lst, pp, {'mode': 'pair', 'nenv': 0}))
+    L.append("pe = environment()")
+    L.append("pe.prepend('PAIRPATH', 'x')")
+    for tag, lst in (('a', ['hello world', 'z']), ('b', ['hello', 'world z']), ('c', ['hello', 'world', 'z'])):
+        name = 'rt_pair_' + tag
+        L.append("run_target('%s', command: [dump, '--dump=%s', %s], env: pe)" % (name, pp, ', '.join(lit(x) for x in lst)))
+        plan.append(('rt', name, lst, pp, {}))
     # exact && separates commands: both halves observed
     for mode in ('plain', 'capture'):
         name = 'ct_andand_' + mode
